@@ -3,7 +3,7 @@ import Posmint.Lemmas.ChainSlash
 # C07 — Slashing burns exactly the stated fraction and never more than the stake
 -/
 namespace Posmint.Props.C07
-open Posmint.Chain Posmint.Arith
+open Posmint.Chain Posmint.Chain.C Posmint.Arith
 
 theorem chopRound_mul_P (x : Int) (hx : 0 ≤ x) : chopRound (x * P) = x := by
   unfold chopRound chopRoundNonneg
